@@ -665,7 +665,12 @@ func (check typecheck) typeAssertionExpr(n *node, typ *itype) error {
 		im := lookupFieldOrMethod(n.typ, name)
 		tm := lookupFieldOrMethod(typ, name)
 		if im == nil {
-			// This should not be possible.
+			// The method of a host interface (error, fmt.Stringer). Its signature is
+			// not compared, and a method promoted from an embedded host type is not
+			// found: only a type which can not have methods is rejected.
+			if tm == nil && typ.cat != structT && typ.cat != linkedT && typ.cat != valueT && typ.cat != ptrT && len(typ.method) == 0 {
+				return n.cfgErrorf("impossible type assertion: %s does not implement %s (missing %v method)", typ.id(), n.typ.id(), name)
+			}
 			continue
 		}
 		if tm == nil {
@@ -673,6 +678,10 @@ func (check typecheck) typeAssertionExpr(n *node, typ *itype) error {
 			// for bin types, ignore them as they can't be used
 			// directly by the interpreted programs.
 			if !token.IsExported(name) && isBin(typ) {
+				continue
+			}
+			if _, ok := typ.methods()[name]; ok {
+				// The method is promoted from an embedded host type.
 				continue
 			}
 			return n.cfgErrorf("impossible type assertion: %s does not implement %s (missing %v method)", typ.id(), n.typ.id(), name)
